@@ -25,6 +25,8 @@ def run_shard(ctx):
     strat = qmgen.history(qmgen.configs(bks, pools=True, announce=True), WEIGHTS)
     qmgen.drive_histories(ctx, OWN, strat, ctx.n(2500, 40000), nontrivial)
     qmgen.drive_histories(ctx, OWN, qmgen.burst_history(), ctx.n(1500, 25000), nontrivial, salt=7)
+    qmgen.drive_histories(ctx, OWN, qmgen.restart_race_history(), ctx.n(600, 10000), nontrivial, salt=8)
+    qmgen.drive_histories(ctx, OWN, qmgen.saturated_pool_history(), ctx.n(600, 10000), nontrivial, salt=9)
 
 
 def replay(case):
